@@ -62,9 +62,32 @@ func newEnv(prop, engine, work string) *Env {
 		tier = "quick"
 	}
 	os.MkdirAll(work, 0755)
-	return &Env{Work: work, Seed: seed, Tier: tier, Rng: rand.New(rand.NewSource(seed)),
+	return &Env{Work: work, Seed: seed, Tier: tier, Rng: rand.New(&lockedSource{src: rand.NewSource(seed).(rand.Source64)}),
 		Res:   &Result{Property: prop, Engine: engine, Seed: seed, Tier: tier, Distribution: map[string]int{}, Failures: []Failure{}, Samples: []interface{}{}, Extra: map[string]interface{}{}},
 		start: time.Now(), seen: map[string]bool{}}
+}
+
+// lockedSource makes the run's generator usable from the goroutines of a harness (handlers, pipe ends)
+// as well as from its main line.
+type lockedSource struct {
+	mu  sync.Mutex
+	src rand.Source64
+}
+
+func (l *lockedSource) Int63() int64 {
+	l.mu.Lock()
+	defer l.mu.Unlock()
+	return l.src.Int63()
+}
+func (l *lockedSource) Uint64() uint64 {
+	l.mu.Lock()
+	defer l.mu.Unlock()
+	return l.src.Uint64()
+}
+func (l *lockedSource) Seed(s int64) {
+	l.mu.Lock()
+	defer l.mu.Unlock()
+	l.src.Seed(s)
 }
 
 func (e *Env) thorough() bool { return e.Tier == "thorough" }
